@@ -190,19 +190,22 @@ def drive(watch, out, rng, spec, tier):
         for p in sorted(glob.glob(os.path.join(REPO, "test", "resources", "test-chkjson-*.chk"))):
             maps.append(("fixture:" + os.path.basename(p), open(p, "rb").read()))
 
+    cur_map = [None]
+
     def step(label, fn, *args):
         try:
             r = fn(*args)
         except Exception as ex:  # noqa: BLE001
             out.count("step-raised:" + err_class(ex))
             r = None
-        out.case("step:" + label.split(" ")[0], repr((label, len(watch.values))).encode(), sample={"step": label})
+        out.case("step:" + label.split(" ")[0], repr((cur_map[0], label)).encode(), sample={"map": cur_map[0], "step": label})
         watch.verify_all(label)
         if r is not None:
             watch.remember(label, r)
         return r
 
     for tag, data in maps:
+        cur_map[0] = tag
         watch.values = []
         dec = step("ChkIo.decode_chk_binary_data " + tag, ChkIo().decode_chk_binary_data, data)
         if dec is None:
